@@ -21,6 +21,10 @@
 // first, a middle and the last token of an index, in single files and in each
 // file of merged worlds.
 //
+// Part D (engine E1, typed.go): Typed(T, q) at every position of binary and
+// ternary intersections and unions, on worlds where the same tags sit on a
+// feature of every type.
+//
 // Menu: worldkit.QueryMenu over all / tagged(#k=v) / keyed(#k) / keyed(@k)
 // atoms (present and absent keys and values), typed(point|path|area|relation,.),
 // and / or of arity 1-2; depth <= 2 (quick), <= 3 over a pruned atom set
@@ -101,10 +105,40 @@ func size(q wk.RQ) int {
 // (fewest nodes, then menu order) names the class, the message lists how many
 // queries fail that way.
 func checkMenu(r *kit.Result, w b6.World, menu []wk.RQ, expect func(q wk.RQ) []b6.FeatureID) map[string]string {
+	wants := make([][]b6.FeatureID, len(menu))
+	for i, q := range menu {
+		wants[i] = expect(q)
+	}
+	return checkMenuAgainst(r, w, menu, wants)
+}
+
+// expectedAll evaluates the predicate of every query of the menu over the
+// reference tags of the spec: the matching IDs in ID order.
+func expectedAll(spec wk.Spec, menu []wk.RQ) [][]b6.FeatureID {
+	ref := wk.NewRef(spec)
+	ids := spec.IDs()
+	tags := make([]map[string]string, len(ids))
+	indexed := make([]bool, len(ids))
+	for i, id := range ids {
+		tags[i] = ref.Get(id).TagMap()
+		indexed[i] = ref.Indexed(id)
+	}
+	wants := make([][]b6.FeatureID, len(menu))
+	for n, q := range menu {
+		for i, id := range ids {
+			if q.Eval(id, tags[i], indexed[i]) {
+				wants[n] = append(wants[n], id)
+			}
+		}
+	}
+	return wants
+}
+
+func checkMenuAgainst(r *kit.Result, w b6.World, menu []wk.RQ, wants [][]b6.FeatureID) map[string]string {
 	var fails []failure
-	for _, q := range menu {
+	for qi, q := range menu {
 		fo := mk.Find(w, q, false)
-		want := expect(q)
+		want := wants[qi]
 		var ss []mk.Symptom
 		mk.CompareFind(fo, want, &ss)
 		r.Evals++
@@ -455,6 +489,7 @@ func builderClass(name string) string {
 // over the features the configuration is expected to hold. prefix names the
 // part in outcome and violation classes.
 func judge(r *kit.Result, bs []built, sch wk.IDScheme, desc, prefix string, menu, matchMenu []wk.RQ) {
+	expected := map[string][][]b6.FeatureID{} // by expected spec: configurations share it
 	for _, b := range bs {
 		if b.skip != "" {
 			r.AddOutcome(prefix + b.name + ":skipped:" + b.skip)
@@ -483,7 +518,11 @@ func judge(r *kit.Result, bs []built, sch wk.IDScheme, desc, prefix string, menu
 			continue
 		}
 		ref := wk.NewRef(b.expect)
-		bad := checkMenu(r, b.w, menu, ref.Find)
+		ek := b.expect.String()
+		if expected[ek] == nil {
+			expected[ek] = expectedAll(b.expect, menu)
+		}
+		bad := checkMenuAgainst(r, b.w, menu, expected[ek])
 		r.AddOutcome(fmt.Sprintf("%s%s:%d-features", prefix, b.name, len(b.expect)))
 		for _, cls := range sortedKeys(bad) {
 			r.Violate(prefix+b.name+":"+cls, "scheme %s %s\nexpected features: %s\n%s", sch.Name, what, b.expect, bad[cls])
@@ -524,6 +563,7 @@ func main() {
 		Rule: "part A: one representative state per distinct (mutable index contents, overlay ID set, reference state) of the C12 state graphs (BFS over AddFeature/AddTag/RemoveTag histories of a MutableOverlayWorld, dedup by private-state key), plus successors of transitions whose only fault is a wrong search result, x every query of the menu; " +
 			"part B: every choice of one variant per worldkit menu slot whose features are all valid as given x ID scheme x 11 static builder configurations x every query of the menu; " +
 			"part C (token positions): every assignment, to a fixed set of self-contained carrier features, of absent / untagged / one tag of an alphabet whose searchable keys sort before every index token ('#!a', '@!0'), between '*' and the a2: cell tokens ('#a0'), between the a2: and s2: cell tokens ('#m') and after every token ('#z', '@zz'), '#' keys with values v < w - so that the tokens of a key (1 or 2 values) are the first, a middle and the last tokens of an index, counted per position class against the documented tokenisation (counters token-positions[...]) - listed simplest-first (features, tagged features, distinct keys), x in-memory builders and compact single-file / every two-file split x a menu of keyed / tagged / all atoms (present keys and values, and absent ones before, between and after them) alone, typed, and in and/or. " +
+			"part D (typed inside compound queries): every assignment of a subset of two searchable tags to one feature of each type (so the same tag sits on a point, a path, an area and a relation, and the two tags have fewer, as many and more matches than each other), fewest tags first, x 6 in-memory and 4 compact builder configurations x a menu that puts typed(T, all|keyed|tagged) for every type at every position of binary and ternary and / or with atom and typed partners in every operand order (so the typed member leads and does not lead the intersection's length sort, with candidates of lower and higher types: counters typed-member[...]). " +
 			"Non-trivial = the world has at least one feature; a query evaluation is counted as non-vacuous when its expected result is non-empty (counter). " +
 			"Oracle: RQ.Eval over the reference tag map; result strictly increasing in FeatureID.Less and equal to the filtered universe.",
 		Assumptions: []string{
@@ -583,7 +623,24 @@ func main() {
 			}
 			bound += fmt.Sprintf("; part C (token positions): %s = %d worlds with at least one feature (ID scheme = sum of the choices of all carriers but the first, mod 3) x 6 in-memory builder configurations + compact single file, merged from every ordered split of the features into two non-empty self-contained files, first feature + the others as an overlay index built on it, and the same features in both files, x %d queries (%d atoms incl. absent keys/values before, between and after the present tokens; typed x 4; unary and/or; binary and/or with %d partner atoms in both operand orders)",
 				carriersC, nC, len(menuC), len(tokenAtoms()), len(tokenPartners()))
-			return kit.FuncSpace{N: nA + nB + nC, F: func(i int64) kit.Result {
+			worldsD := typedWorlds(tier)
+			nD := int64(len(worldsD))
+			menuD := typedMenu()
+			var carriersD []string
+			for _, c := range typedCarriers(tier) {
+				var sets []string
+				for _, j := range c.choices {
+					sets = append(sets, typedTagSets[j].name)
+				}
+				carriersD = append(carriersD, c.name+" in {"+strings.Join(sets, ",")+"}")
+			}
+			bound += fmt.Sprintf("; part D (typed inside compound queries): every assignment of a subset of the tags #a=x, #b=x to one feature of each type [%s] = %d worlds (ID scheme rotating over 3) x 6 in-memory builder configurations + compact single file, first half | second half of the features as two self-contained files in both merge orders, and the same features in both files, x %d queries (%d atoms all/keyed/tagged; typed(T, atom) for 4 types; and/or of every ordered pair with at least one typed member; and/or of every triple with one typed member at each of the 3 positions and ordered partner pairs from %d atoms)",
+				strings.Join(carriersD, "; "), nD, len(menuD), len(typedAtoms()), len(typedPartners3()))
+			return kit.FuncSpace{N: nA + nB + nC + nD, F: func(i int64) kit.Result {
+				if i >= nA+nB+nC {
+					di := i - nA - nB - nC
+					return runTyped(tier, worldsD[di], wk.Schemes[di%3], menuD, di%37 == 0)
+				}
 				if i >= nA+nB {
 					ci := i - nA - nB
 					return runTokens(tier, worldsC[ci], menuC, ci%97 == 0)
